@@ -55,3 +55,12 @@ package lib
 //@   ensures[view] error == nil ==> x.Header.NetworkId == view.NetworkId && x.Header.ChainId == view.ChainId && (enforceHeights ==> x.Header.Height == view.Height && x.Header.RootHeight == view.RootHeight)
 //@   ensures[verified] error == nil ==> aggVerifies(committeeOf(vs.MultiKey), bytes(x.Signature.Bitmap), signBytesOf(x), bytes(x.Signature.Signature))
 //@   ensures[maj23] error == nil ==> (isPartialQC <==> signedPowerW(vs.ValidatorSet.ValidatorSet, bytes(x.Signature.Bitmap), false, len(vs.ValidatorSet.ValidatorSet)) < vs.MinimumMaj23)
+
+//@ func (*Block).Hash
+//@   modifies BlockHeader.Hash
+//@   ensures[digest] result1 == nil ==> bytes(result0) == headerDigest(x.BlockHeader)
+
+//@ func (*QuorumCertificate).CheckProposalBasic
+//@   ensures[bound] err == nil ==> block != nil && block.BlockHeader != nil && x.Header.Height == block.BlockHeader.Height && block.BlockHeader.Height == height && x.Results != nil
+//@   ensures[hash] err == nil ==> bytes(x.BlockHash) == headerDigest(block.BlockHeader)
+//@   ensures[frame] unchanged(x.Header, x.Block, x.BlockHash, x.ResultsHash, x.Results, x.Signature) && unchanged(x.Header.Height, x.Header.Phase, x.Header.NetworkId, x.Header.ChainId, x.Header.RootHeight)
